@@ -19,7 +19,7 @@ RUNS = {"quick": 4000, "thorough": 60000}
 WALL = {"quick": 280, "thorough": 3500}
 RULE = ("one run = C05 workload + 2-10 bursts of read-only calls; frame condition per call; distinct = "
         "distinct (state digest, query) pairs")
-PROBES = ["burst_with_placeholder", "burst_after_complement", "query_raised", "asym_cigar_state",
+PROBES = ["validate_on_text_fields", "burst_with_placeholder", "burst_after_complement", "query_raised", "asym_cigar_state",
           "lazy_field_vlevel0", "alignment_queries", "group_queries", "topology_queries"]
 
 GFA_Q = ["str", "names", "lines", "validate", "line", "segment", "try_get_line", "select", "components",
@@ -116,6 +116,51 @@ def canon(v, depth=0):
     if isinstance(v, (int, float, str, bool)) or v is None:
         return v
     return "%s(%s)" % (type(v).__name__, str(v))
+
+
+def used_copy(c):
+    """the text of a line handed out by a read-only call; the caller then edits the mutable tag values of *its* line"""
+    text = str(c)
+    for t in list(c.tagnames):
+        v = core.call(c.get, t)
+        if not v.ok:
+            continue
+        if isinstance(v.value, dict):
+            v.value["zz9"] = [1]
+        elif isinstance(v.value, list) and not isinstance(v.value, gfapy.FieldArray):
+            core.call(v.value.append, 1)
+    return text
+
+
+NONCANON = ['zj:J:{"a":1,"b":[1,2]}', "zb:B:c,1,2", "zf:f:1e3", "zi:i:+5", "zh:H:0a", "zj:J:[1,2,  3]", "zb:B:f,1,2.50",
+            "zf:f:+.5", "zb:B:S,01,2"]
+
+
+def noncanon_validate(scn, st):
+    """validate() and validate_field() of a line whose fields are still text (level 0) check the text and leave it"""
+    v = scn["cfg"].get("version")
+    texts = [o["line"] for o in scn["ops"] if o["op"] == "add" and isinstance(o.get("line"), str) and
+             o["line"].split("\t")[0] in ("S", "L", "C", "E", "G", "F", "O", "U")][:6]
+    for k_, t in enumerate(texts):
+        if any(("\t" + x[:2] + ":") in t for x in NONCANON):
+            continue
+        extra = [NONCANON[(len(t) + k_ + j_) % len(NONCANON)] for j_ in (0, 4)]
+        if extra[0][:2] == extra[1][:2]:
+            extra = extra[:1]
+        o = core.call(gfapy.Line, t + "\t" + "\t".join(extra), vlevel=0, version=v if v in ("gfa1", "gfa2") else None)
+        if not o.ok:
+            continue
+        l = o.value
+        s0 = core.call(str, l)
+        if not s0.ok:
+            continue
+        st.count("probe.validate_on_text_fields")
+        r = core.call(l.validate) if k_ % 2 else core.call(lambda: [l.validate_field(x) for x in list(l.tagnames)])
+        s1 = core.call(str, l)
+        if r.ok and (not s1.ok or s1.value != s0.value):
+            raise core.Violation("query-modified-gfa", "validate%s of a level-0 line changed what it writes: %r -> %r" %
+                                 ("()" if k_ % 2 else "_field()", s0.value, s1.value if s1.ok else s1.excname),
+                                 on="line", q="validate", what="text-fields")
 
 
 def pick(lst, i):
@@ -225,7 +270,7 @@ def make_call(g, c):
         o = pick(links, j)
         ov = l.overlap
         f = {
-            "complement": lambda: str(l.complement()),
+            "complement": lambda: used_copy(l.complement()),
             "is_complement": lambda: (l.is_complement(o), o.is_complement(l)),
             "is_eql": lambda: (l.is_eql(o), o.is_eql(l)),
             "is_same": lambda: (l.is_same(o), o.is_same(l)),
@@ -377,6 +422,7 @@ def run(scn, st):
         st.count("outcome." + out.kind)
         if op.get("complement"):
             complement_seen = True
+    noncanon_validate(scn, st)
     if w.gfa is not None and twin.gfa is not None:
         # the twin, which nobody has read so far, and the Gfa give the same later answers: the in-place edits of references that a connected line refuses
         # are refused whether the lines were read before or not
